@@ -386,7 +386,25 @@ def check_metadata(ctx, r):
     for st in ast.walk(jt.node):
         if isinstance(st, ast.For) and isinstance(st.target, ast.Name) and isinstance(st.iter, (ast.Tuple, ast.List)) and all(isinstance(e, ast.Name) for e in st.iter.elts):
             loops[st.target.id] = [e.id for e in st.iter.elts]
-    for st in ast.walk(jt.node):
+    # `if not isinstance(fn, K): <everything else; leaves>` followed by the K code is the same dispatch with the sides swapped:
+    # it is read as `if isinstance(fn, K): <what follows> else: <everything else>`
+    from .c13 import _always_leaves
+
+    swapped = []
+    for blk_owner in ast.walk(jt.node):
+        for fld in ("body", "orelse", "finalbody"):
+            blk = getattr(blk_owner, fld, None)
+            if not (isinstance(blk, list) and blk and isinstance(blk[0], ast.stmt)):
+                continue
+            for i_, st in enumerate(blk):
+                if isinstance(st, ast.If) and isinstance(st.test, ast.UnaryOp) and isinstance(st.test.op, ast.Not) and isinstance(st.test.operand, ast.Call) \
+                        and isinstance(st.test.operand.func, ast.Name) and st.test.operand.func.id == "isinstance" and len(st.test.operand.args) == 2 \
+                        and isinstance(st.test.operand.args[0], ast.Name) and st.test.operand.args[0].id == "fn":
+                    if st.orelse:
+                        swapped.append(ast.copy_location(ast.If(test=st.test.operand, body=st.orelse, orelse=st.body), st))
+                    elif _always_leaves(st.body) and blk[i_ + 1:]:
+                        swapped.append(ast.copy_location(ast.If(test=st.test.operand, body=blk[i_ + 1:], orelse=st.body), st))
+    for st in list(ast.walk(jt.node)) + swapped:
         if isinstance(st, ast.If) and isinstance(st.test, ast.Call) and isinstance(st.test.func, ast.Name) and st.test.func.id == "isinstance" \
                 and len(st.test.args) == 2 and isinstance(st.test.args[0], ast.Name) and st.test.args[0].id == "fn":
             second = st.test.args[1]
